@@ -15,11 +15,13 @@ import (
 	"fmt"
 	"math"
 	"strings"
+	"sync/atomic"
 	"testing"
 
 	"pgregory.net/rapid"
 
 	"verifharness/internal/pbt"
+	"verifharness/internal/proxyfix"
 	"verifharness/internal/rawclient"
 	"verifharness/internal/sqllex"
 	"verifharness/internal/stmtfix"
@@ -281,6 +283,7 @@ func checkCase(c c15Case) (o pbt.Outcome) {
 	e, err := stmtfix.OpenWith(stmtfix.Options{Prefix: "c15", MultiStatements: c.Multi})
 	if err != nil {
 		o.Skip = "fixture: " + err.Error()
+		atomic.AddInt64(&fixtureFailures, 1)
 		return
 	}
 	defer e.Close()
@@ -395,7 +398,20 @@ func checkCase(c c15Case) (o pbt.Outcome) {
 	return
 }
 
+// fixtureFailures counts cases that could not be evaluated because the proxy,
+// the backend or the client session could not be set up (e.g. the host ran out
+// of ephemeral ports). A run dominated by them must not look like a pass.
+var fixtureFailures int64
+
 func TestC15Bind(t *testing.T) {
+	if _, err := proxyfix.Shared(); err != nil {
+		t.Fatalf("inconclusive: the live proxy fixture cannot start: %v", err)
+	}
+	defer func() {
+		if n := atomic.LoadInt64(&fixtureFailures); n > 20 {
+			t.Errorf("inconclusive: the fixture failed to set up %d cases (see the skipped reasons in the evidence)", n)
+		}
+	}()
 	pbt.Run(t, pbt.Spec{ID: "C15", Sub: "bind", Quick: 1000, Thorough: 6000,
 		Rule:  "1-4 steps per session, each: optional SET sql_mode (12 mode lists, 5 spellings, DEFAULT) before or after prepare, a template of 10 shapes with 1-4 placeholders, values of every binary-protocol type (hostile byte strings, integer extremes per width/signedness, float/double specials and random bits, DATE/DATETIME/TIMESTAMP/TIME of each legal length, NULL by bitmap and by type); non-trivial = a checked execution under NO_BACKSLASH_ESCAPES, or with a string containing ' \\ or NUL, or a float/temporal value",
 		Floor: 0.5}, genCase, checkCase)
